@@ -478,6 +478,112 @@ func runC01(c *Ctx) {
 		}
 	}
 
+	// ---- inputs that are sub-slices of one live record buffer (ID‖message, message‖ID, message‖signature): each slice has
+	// spare capacity that IS the next field. The result must be the one separate copies give (same nonce stream -> same
+	// pair), and not a byte of the buffer may change.
+	{
+		rl := c.Rng("layout")
+		nk := len(keys)
+		if nk > c.Q(6, 30) {
+			nk = c.Q(6, 30)
+		}
+		for ki := 0; ki < nk; ki++ {
+			key := keys[ki]
+			for _, il := range []int{1, 16, 100} {
+				for _, ml := range []int{1, 31, 200, 300} {
+					id0, msg0 := rl.Bytes(il), rl.Bytes(ml)
+					seed := rl.U64()
+					w := map[string]interface{}{"d": key.d.Text(16), "id": mon.Hex(id0), "msg": mon.Hex(msg0), "nonce_seed": seed}
+					var R0, S0 *big.Int
+					var err0 error
+					if pi := mon.Guard(func() {
+						R0, S0, err0 = sm2.Sm2Sign(key.priv(), append([]byte{}, msg0...), append([]byte{}, id0...), io.Reader(mon.NewRNG(seed)))
+					}); pi != nil || err0 != nil {
+						rep.Violation("C01/layout/sign-with-separate-copies-failed", fmt.Sprint(pi, err0), w)
+						continue
+					}
+					for _, order := range []string{"id|msg", "msg|id"} {
+						var sb *sharedBuf
+						var id, msg []byte
+						if order == "id|msg" {
+							b, parts := newSharedBuf(id0, msg0)
+							sb, id, msg = b, parts[0], parts[1]
+						} else {
+							b, parts := newSharedBuf(msg0, id0)
+							sb, msg, id = b, parts[0], parts[1]
+						}
+						w["layout"] = order
+						step := func(op string, f func()) bool {
+							if pi := mon.Guard(f); pi != nil {
+								rep.Violation("C01/layout/panic/"+pi.Func, op+": "+pi.Value, w)
+								return false
+							}
+							if ch := sb.Check(); ch != "" {
+								rep.Violation("C01/layout/"+op+"/writes-caller-memory", ch+" (layout "+order+")", w)
+								sb.Restore()
+							}
+							return true
+						}
+						var R, S *big.Int
+						var err error
+						if !step("Sm2Sign", func() { R, S, err = sm2.Sm2Sign(key.priv(), msg, id, io.Reader(mon.NewRNG(seed))) }) {
+							continue
+						}
+						if err != nil || R.Cmp(R0) != 0 || S.Cmp(S0) != 0 {
+							rep.Violation("C01/layout/Sm2Sign/result-differs-from-separate-copies", fmt.Sprintf("layout %s err=%v", order, err), w)
+						}
+						var ok, ok2 bool
+						step("Sm2Verify", func() { ok = sm2.Sm2Verify(key.pub(), msg, id, R0, S0) })
+						if !ok {
+							rep.Violation("C01/layout/Sm2Verify/rejects-valid", "layout "+order, w)
+						}
+						var za, za0, dg, dg0 []byte
+						step("ZA", func() { za, _ = sm2.ZA(key.pub(), id) })
+						za0, _ = sm2.ZA(key.pub(), append([]byte{}, id0...))
+						step("Sm3Digest", func() { dg, _ = key.pub().Sm3Digest(msg, id) })
+						dg0, _ = key.pub().Sm3Digest(append([]byte{}, msg0...), append([]byte{}, id0...))
+						if !bytes.Equal(za, za0) || !bytes.Equal(dg, dg0) {
+							rep.Violation("C01/layout/ZA-or-Sm3Digest/result-differs-from-separate-copies", "layout "+order, w)
+						}
+						// after all these calls the buffer still holds the same message: a changed message must still be rejected
+						msg[len(msg)-1] ^= 1
+						if pi := mon.Guard(func() { ok2 = sm2.Sm2Verify(key.pub(), msg, id, R0, S0) }); pi == nil && ok2 {
+							rep.Violation("C01/layout/Sm2Verify/accepts-changed-message", "layout "+order, w)
+						}
+						rep.Eval(fmt.Sprintf("layout/%s/%s/idlen=%d/msglen=%d", order, key.cls, il, ml))
+					}
+					delete(w, "layout")
+					// DER form: message‖signature in one buffer (default ID)
+					var der []byte
+					var derr error
+					if pi := mon.Guard(func() { der, derr = key.priv().Sign(io.Reader(mon.NewRNG(seed)), append([]byte{}, msg0...), nil) }); pi != nil || derr != nil {
+						rep.Violation("C01/layout/PrivateKey.Sign-failed", fmt.Sprint(pi, derr), w)
+						continue
+					}
+					sb, parts := newSharedBuf(msg0, der)
+					var okv bool
+					var der2 []byte
+					if pi := mon.Guard(func() { okv = key.pub().Verify(parts[0], parts[1]) }); pi != nil {
+						rep.Violation("C01/layout/panic/"+pi.Func, "PublicKey.Verify: "+pi.Value, w)
+					} else if ch := sb.Check(); ch != "" {
+						rep.Violation("C01/layout/PublicKey.Verify/writes-caller-memory", ch, w)
+						sb.Restore()
+					} else if !okv {
+						rep.Violation("C01/layout/PublicKey.Verify/rejects-valid", "message|signature in one buffer", w)
+					}
+					if pi := mon.Guard(func() { der2, derr = key.priv().Sign(io.Reader(mon.NewRNG(seed)), parts[0], nil) }); pi != nil {
+						rep.Violation("C01/layout/panic/"+pi.Func, "PrivateKey.Sign: "+pi.Value, w)
+					} else if ch := sb.Check(); ch != "" {
+						rep.Violation("C01/layout/PrivateKey.Sign/writes-caller-memory", ch, w)
+					} else if derr != nil || !bytes.Equal(der2, der) {
+						rep.Violation("C01/layout/PrivateKey.Sign/result-differs-from-separate-copy", fmt.Sprint(derr), w)
+					}
+					rep.Eval(fmt.Sprintf("layout/msg|sig/%s/msglen=%d", key.cls, ml))
+				}
+			}
+		}
+	}
+
 	// ---- rejection: single-field perturbations
 	other := mkKey("other", new(big.Int).SetBytes(c.Rng("otherkey").Bytes(31)))
 	Par(len(pool), func(i int) {
